@@ -70,9 +70,13 @@ B("total-checked_rem-no-guard", ["C03"],
   "checked_rem")
 B("total-mul_mod-no-guard", ["C10"],
   [("src/modular.rs", "        if modulus.is_zero() {\n            return Self::ZERO;\n        }\n\n        // Allocate", "        // Allocate")], "mul_mod")
-B("total-rlp-from_be_slice", ["C17"],
-  [("src/support/rlp.rs", "Ordering::Equal => Self::try_from_be_slice(bytes).ok_or(DecoderError::RlpIsTooBig),", "Ordering::Equal => Ok(Self::from_be_slice(bytes)),")],
-  "from_be_slice")
+B("total-ssz-from_le_slice", ["C17"],
+  [("src/support/ssz.rs", """        Self::try_from_le_slice(bytes).ok_or_else(|| {
+            DecodeError::BytesInvalid(alloc::format!(
+                "value is larger than fits the {BITS}-bit Uint"
+            ))
+        })""", "        Ok(Self::from_le_slice(bytes))")],
+  "from_le_slice")
 B("total-postgres-numeric-len", ["C17"],
   [("src/support/postgres.rs", "                if raw.len() < 8 {\n                    return Err(Box::new(FromSqlError::ParseError(ty.clone())));\n                }\n                let digits", "                let digits")],
   "from_sql")
